@@ -69,3 +69,31 @@ def playback_values(output):
 
 def le(b):
     return sum(x << (8 * i) for i, x in enumerate(b))
+
+
+def playback_many(names, extra_args=(), timeout=1800, jobs=4):
+    """concrete counterexamples of several failing harnesses -> {harness: [byte lists]}.
+    --concrete-playback is incompatible with -j, so up to `jobs` separate cargo-kani processes run in
+    parallel, each with its own target dir (build/kani-target-pb<k>, kept for incremental rebuilds)."""
+    from concurrent.futures import ThreadPoolExecutor
+    jobs = max(1, min(jobs, 4, len(names)))
+    chunks = [names[k::jobs] for k in range(jobs)]
+
+    def run(k):
+        out = {}
+        env = dict(os.environ)
+        env["CARGO_NET_OFFLINE"] = "true"
+        for n in chunks[k]:
+            cmd = ["cargo", "kani", "--target-dir", TARGET + "-pb%d" % k, "--output-format", "terse"] + list(extra_args) + \
+                  ["--harness", n, "-Z", "concrete-playback", "--concrete-playback=print"]
+            try:
+                p = subprocess.run(cmd, cwd=KANI_DIR, env=env, stdout=subprocess.PIPE, stderr=subprocess.STDOUT, text=True, timeout=timeout)
+                out[n] = playback_values(p.stdout)
+            except subprocess.TimeoutExpired:
+                out[n] = []
+        return out
+    res = {}
+    with ThreadPoolExecutor(jobs) as ex:
+        for r in ex.map(run, range(jobs)):
+            res.update(r)
+    return res
